@@ -1,12 +1,15 @@
 """C02 — random-access AES-CBC reads equal whole-stream decryption; the wrapper never writes."""
 from stackcheck import StackCheck, gen_ops
 
+HUGE = [1 << 32, (1 << 32) + 16, (1 << 33), (1 << 36) + 32, (1 << 40), (1 << 63) - 4096, (1 << 64), (1 << 64) + (1 << 32)]
+
 
 class C02(StackCheck):
     prop = 'C02'
     rule = ('key, IV, ciphertext length in {0,16,...,96}, base BytesIO or SubsectionIO at non-zero offset, op lists of '
             '1-12 seek/read/tell/write (write must raise and change nothing) incl. reads inside block 0, starting or '
-            'ending mid-block, at the end and 1-40 bytes past it, the inner file object moved by its owner between calls (the '
+            'ending mid-block, at the end and 1-40 bytes past it, a tenth of the cases on a virtual file with positions beyond 2^32, '
+            '2^36, 2^63 and 2^64 bytes (monitor only), the inner file object moved by its owner between calls (the '
             'wrapper has no position of its own); monitor = per-block ECB decryption xor previous '
             'ciphertext block, instrumented base logs writes; non-trivial = some op returned data or raised')
     trusted_base = [
@@ -21,6 +24,17 @@ class C02(StackCheck):
         return 500 if tier == 'quick' else 4000
 
     def gen(self, rng, tier, i):
+        if rng.chance(0.1):
+            # positions beyond 2^32 bytes / 2^32 blocks / 2^64 on a file that exists only as a function of the offset
+            ops = []
+            for _ in range(rng.randint(1, 4)):
+                base = rng.pick(HUGE)
+                ops.append(['s', base + rng.pick([0, 1, 5, 15, 16, 17, 0xFF0, -1, -16, -33]), 0])
+                for _ in range(rng.randint(1, 2)):
+                    ops.append(['r', rng.pick([1, 5, 16, 17, 32, 40])])
+                if rng.chance(0.3):
+                    ops.append(['t'])
+            return {'huge': True, 'key': rng.rbytes(16), 'iv': rng.rbytes(16), 'seed': rng.rbytes(8), 'ops': ops}
         ln = rng.pick([0, 16, 32, 48, 64, 96])
         key, iv = rng.rbytes(16), rng.rbytes(16)
         if rng.chance(0.5):
@@ -34,6 +48,64 @@ class C02(StackCheck):
             for _ in range(rng.randint(1, 3)):
                 ops.insert(rng.randint(0, len(ops)), ['is', rng.pick([0, 16, 32, 48, 64, rng.randint(0, ln + 20)])])
         return {'node': ['cbc', key, iv, base], 'ops': ops}
+
+    def run_case(self, case, drv):
+        if not case.get('huge'):
+            return super().run_case(case, drv)
+        import envsetup
+        from Cryptodome.Cipher import AES
+        from corr_c01 import VirtualFile
+        from framework import CaseResult
+        e = envsetup.install()
+        eng = e.CryptoEngine()
+        eng.set_normal_key(0x10, case['key'])
+        vf = VirtualFile((1 << 70) + 4096, case['seed'])
+        f = eng.create_cbc_io(0x10, vf, case['iv'])
+        dec = AES.new(case['key'], AES.MODE_ECB)
+        mon, outs = [], []
+        pos = 0
+        for op in case['ops']:
+            try:
+                if op[0] == 's':
+                    pos = f.seek(op[1], op[2])
+                    outs.append(f'n:{pos}')
+                    if pos != op[1]:
+                        mon.append(f'seek({op[1]}) returned {pos}')
+                elif op[0] == 't':
+                    t = f.tell()
+                    outs.append(f'n:{t}')
+                    if t != pos:
+                        mon.append(f'tell() = {t}, expected {pos}')
+                else:
+                    d = f.read(op[1])
+                    outs.append('b:' + d.hex())
+                    b0 = pos - pos % 16
+                    nblk = (pos % 16 + op[1] + 15) // 16
+                    ct = vf.content(b0 - 16, 16 * (nblk + 1)) if b0 >= 16 else case['iv'] + vf.content(0, 16 * nblk)
+                    plain = b''.join(bytes(x ^ y for x, y in zip(dec.decrypt(ct[16 * (k + 1):16 * (k + 2)]), ct[16 * k:16 * (k + 1)]))
+                                     for k in range(nblk))
+                    exp = plain[pos % 16:pos % 16 + op[1]]
+                    if d != exp:
+                        mon.append(f'read({op[1]}) at {pos:#x}: bytes differ from the whole-stream CBC decryption at that position')
+                    pos += len(d)
+            except Exception as ex:     # noqa
+                outs.append('e:' + type(ex).__name__)
+                mon.append(f'{op} at {pos:#x} raised {type(ex).__name__}')
+                break
+        real = ' '.join(outs)
+        return CaseResult(real, real, mon, 'huge:' + str(case['ops'])[:60], 'cbc.huge' if mon else None, {'stack:huge-cbc': 1})
+
+    def shrink(self, case):
+        if not case.get('huge'):
+            yield from super().shrink(case)
+            return
+        ops = case['ops']
+        for i in range(len(ops)):
+            yield dict(case, ops=ops[:i] + ops[i + 1:])
+
+    def neighbours(self, case, rng):
+        if not case.get('huge'):
+            yield from super().neighbours(case, rng)
 
     def exhaustive(self, tier):
         if tier != 'thorough':
